@@ -30,6 +30,25 @@ use xml::EmitterConfig;
 pub struct XmlConverter {}
 
 impl XmlConverter {
+    /// Escapes a namespace uri for use as the value of an xmlns attribute.
+    fn escape_ns_uri(uri: &str) -> String {
+        let mut escaped = String::with_capacity(uri.len());
+        for c in uri.chars() {
+            match c {
+                '&' => escaped.push_str("&amp;"),
+                '<' => escaped.push_str("&lt;"),
+                '>' => escaped.push_str("&gt;"),
+                '"' => escaped.push_str("&quot;"),
+                // white space other than a blank would be normalized away
+                '\t' => escaped.push_str("&#9;"),
+                '\n' => escaped.push_str("&#10;"),
+                '\r' => escaped.push_str("&#13;"),
+                c => escaped.push(c),
+            }
+        }
+        escaped
+    }
+
     fn get_str_val(v: &Val) -> std::result::Result<&str, Box<dyn Error>> {
         if let Val::Str(s) = v {
             Ok(s)
@@ -128,11 +147,14 @@ impl XmlConverter {
                         start = start.attr(name.as_ref(), Self::get_str_val(val.as_ref())?);
                     }
                 }
-                if let Some((prefix, uri)) = ns {
+                // The writer escapes attribute values but copies a namespace
+                // uri into the xmlns attribute as it is.
+                let uri = ns.map(|(_, uri)| Self::escape_ns_uri(uri));
+                if let (Some((prefix, _)), Some(uri)) = (ns, &uri) {
                     if prefix.is_empty() {
-                        start = start.default_ns(uri);
+                        start = start.default_ns(uri.as_str());
                     } else {
-                        start = start.ns(prefix, uri);
+                        start = start.ns(prefix, uri.as_str());
                     }
                 }
                 w.write(start)?;
